@@ -172,6 +172,26 @@ pub fn run_c08(ctx: &mut Ctx) {
             directed.push(nested_guards(&mut f, &mut dr, depth, ClvmFlags::empty(), t));
         }
     }
+    // an extension-only operator evaluated AFTER a guard has completed, in the same run (operands are evaluated last
+    // to first): the guard's operator set must not outlive the guard
+    for t in [
+        "(c (62 (q . \"foobar\")) (softfork (q . 160) (q . 1) (q . (q . 42)) (q . ())))",
+        "(c (62 (q . \"foobar\")) (softfork (q . 160) (q . 0) (q . (q . 42)) (q . ())))",
+        "(c (62 (q . 1) (q . 2)) (c (softfork (q . 160) (q . 1) (q . (q . 42)) (q . ())) (62 (q . 3))))",
+        "(c (63 (q . (1 . 2))) (softfork (q . 160) (q . 1) (q . (q . 42)) (q . ())))",
+        "(c (62 (q . \"foobar\")) (a (q . (softfork (q . 160) (q . 1) (q . (q . 42)) (q . ()))) ()))",
+    ] {
+        directed.push(sexp::parse(&mut f, t, &[]));
+    }
+    for inner in ["(q . 1)", "(keccak256 (q . 1) (q . 2))"] {
+        for depth in [1u32, 2, 3] {
+            let g = nested_guards(&mut f, &mut dr, depth, ClvmFlags::empty(), inner);
+            let after = sexp::parse(&mut f, "(62 (q . 0x0102) (q . 0x03))", &[]);
+            let c = f.atom(&[4]);
+            let l = f.list(&[c, after, g]);
+            directed.push(l);
+        }
+    }
     {
         // valid 4-byte secp calls
         let p = crate::util::points();
